@@ -164,6 +164,12 @@ func (g *c14gen) spell(s string) string {
 }
 
 // actionCallSite writes a step using the action and a following step referencing outputs; returns expectations.
+// embedRef puts an output reference into one of several expression shapes: every operand of every
+// operator is checked, whatever the checker knows about the value of the whole expression.
+func (g *c14gen) embedRef(ref string) string {
+	return fmt.Sprintf(rapid.SampledFrom([]string{"%s", "%s", "%s", "%s == 'true' && 'hit' || 'miss'", "(%s || 'a') && 'b'", "!%s || 'z'", "format('{0}', %s)", "'x' == %s", "fromJSON(%s)", "github.sha && %s", "!(%s && true) || false", "contains(%s, 'a')"}).Draw(g.t, "refshape"), ref)
+}
+
 func (g *c14gen) actionCallSite(y *ybuf, spec string, inputs map[string]bool, outputs []string, skipIn, skipOut bool) []string {
 	t := g.t
 	var exp []string
@@ -237,9 +243,9 @@ func (g *c14gen) actionCallSite(y *ybuf, spec string, inputs map[string]bool, ou
 	for i := 0; i < nref; i++ {
 		if len(outputs) > 0 && rapid.Bool().Draw(t, "declout") {
 			o := outputs[rapid.IntRange(0, len(outputs)-1).Draw(t, "oi")]
-			y.ln("      - run: echo ${{ steps.s1.outputs.%s }}", g.spell(o))
+			y.ln("      - run: echo ${{ %s }}", g.embedRef("steps.s1.outputs."+g.spell(o)))
 		} else {
-			ln := y.ln("      - run: echo ${{ steps.s1.outputs.zz_nosuch_output }}")
+			ln := y.ln("      - run: echo ${{ %s }}", g.embedRef("steps.s1.outputs.zz_nosuch_output"))
 			if !skipOut {
 				exp = append(exp, fmt.Sprintf("%d|undefined-output|zz_nosuch_output", ln))
 			}
@@ -368,7 +374,7 @@ func genLocalActionCase(rt *rapid.T) (*c14Case, string, string, string, int) {
 
 func TestC14(t *testing.T) {
 	hx.Main(t, "C14", func(r *hx.Run) {
-		r.Rule = "(a) every action spec of the bundled popular-actions table (complete enumeration, several call sites each): random subset of declared inputs in random letter case and order, 0-2 undeclared inputs, required inputs dropped, references to declared and undeclared outputs; (b) generated well-formed local actions (inputs with every required/default combination, outputs, node/docker/composite; at the repository root, one or several levels down, with trailing slash, action.yml / action.yaml), alone and as two sibling repositories with the same relative paths linted in one invocation; (c) generated local reusable workflows (typed inputs with required/default, required/optional secrets, outputs) with call sites (subset, extra names, secrets: inherit, typed literal / expression / templated values) and needs.<job>.outputs references, linted alone and together with the callee in both argument orders. Oracle: expected set of {undefined input/secret at its key, missing required at uses, undefined output at the reference, unassignable typed value at the value} computed from the generated interface (b, c) or the exported table (a). Non-trivial = call site with >= 1 declared and >= 1 violating name; distinct = files hash."
+		r.Rule = "(a) every action spec of the bundled popular-actions table (complete enumeration, several call sites each): random subset of declared inputs in random letter case and order, 0-2 undeclared inputs, required inputs dropped, references to declared and undeclared outputs, plain and inside conditions / negations / calls (every operand is examined); (b) generated well-formed local actions (inputs with every required/default combination, outputs, node/docker/composite; at the repository root, one or several levels down, with trailing slash, action.yml / action.yaml), alone and as two sibling repositories with the same relative paths linted in one invocation; (c) generated local reusable workflows (typed inputs with required/default, required/optional secrets, outputs) with call sites (subset, extra names, secrets: inherit, typed literal / expression / templated values) and needs.<job>.outputs references, linted alone and together with the callee in both argument orders. Oracle: expected set of {undefined input/secret at its key, missing required at uses, undefined output at the reference, unassignable typed value at the value} computed from the generated interface (b, c) or the exported table (a). Non-trivial = call site with >= 1 declared and >= 1 violating name; distinct = files hash."
 		r.Assumptions = []string{"for (a) the exported PopularActions table is the specification of the bundled data", "typed-value clause asserted only for: number <- non-numeric string / bool / null literal or templated text (reported); string <- null (reported); number <- numeric literal, string <- string/templated text, boolean <- true|false, anything <- expression of type any (not reported)"}
 		// (a) popular actions, complete enumeration
 		specs := make([]string, 0, len(al.PopularActions))
@@ -620,9 +626,9 @@ func TestC14(t *testing.T) {
 			y.ln("    steps:")
 			for i := 0; i < rapid.IntRange(1, 3).Draw(rt, "nref"); i++ {
 				if len(outs) > 0 && rapid.Bool().Draw(rt, "declout") {
-					y.ln("      - run: echo ${{ needs.call.outputs.%s }}", g.spell(outs[rapid.IntRange(0, len(outs)-1).Draw(rt, "oi")]))
+					y.ln("      - run: echo ${{ %s }}", g.embedRef("needs.call.outputs."+g.spell(outs[rapid.IntRange(0, len(outs)-1).Draw(rt, "oi")])))
 				} else {
-					ln := y.ln("      - run: echo ${{ needs.call.outputs.zz_nosuch_output }}")
+					ln := y.ln("      - run: echo ${{ %s }}", g.embedRef("needs.call.outputs.zz_nosuch_output"))
 					exp = append(exp, fmt.Sprintf("%d|undefined-output|zz_nosuch_output", ln))
 				}
 			}
